@@ -112,3 +112,13 @@ func (g *Ring) Stress(r *Run, c *Case, workers, rounds int) {
 	}
 	r.Count(g.name+": earlier inputs re-evaluated concurrently", len(items)*workers*rounds)
 }
+
+// Digest evaluates f; a panic becomes part of the result (the guarded first evaluation has reported it already).
+func Digest(f func() string) (d string) {
+	defer func() {
+		if p := recover(); p != nil {
+			d = fmt.Sprintf("panic: %v", p)
+		}
+	}()
+	return f()
+}
